@@ -593,3 +593,128 @@ def probe_expected(pr, o):
         chk('seconds after etempo(v) and yielding d', o['ran']['secs'], T + F(pr['after']) / F(pr['val']))
         chk('beats after etempo(v) and yielding d', o['ran']['beats'], s2b(pr['parent'], T) + F(pr['after']))
     return bad
+
+
+# ------------------------------------------------------------------ strengthening 2 (C05): survivors next to tasks that end / raise
+ENDER_KINDS = ['routine_end', 'routine_raise', 'func_end', 'func_raise']
+
+
+def gen_alongside(rng, k, rt=False):
+    """Survivor routines on SystemClock and on TempoClocks (tempi powers of two) yield a small delta many times; on AppClock
+    and on every other clock short routines END or RAISE and functions return or raise at staggered instants in between.
+    k rotates which clock hosts most of the enders (AppClock first: it runs the drifting Scheduler in real time)."""
+    tempos = rng.sample(['2', '4', '1/2', '1'], 2)
+    n = rng.choice([16, 20, 24])
+    step = Fraction(1, 64)
+    surv = [{'clock': 'S', 'delta': str(step), 'n': n}]
+    for i in range(2):
+        if rng.random() < 0.8:
+            surv.append({'clock': ['T', i], 'delta': str(step * Fraction(tempos[i])), 'n': n})   # the same span in seconds
+    hosts = [['A', 'S', ['T', 0], ['T', 1]][k % 4]] * 3 + ['A', 'S', ['T', 0], ['T', 1]]
+    enders = []
+    span = step * n
+    for j in range(rng.randint(10, 16)):
+        c = rng.choice(hosts)
+        delay = span * Fraction(rng.randint(1, 120), 128) + Fraction(rng.randint(1, 7), 1024)    # off the survivors' grid
+        if c not in ('S', 'A'):
+            delay = delay * Fraction(tempos[c[1]])
+        enders.append({'clock': c, 'kind': ENDER_KINDS[(j + k) % 4], 'delay': str(delay)})
+    return {'tempos': tempos, 'survivors': surv, 'enders': enders, 'start': str(Fraction(rng.randint(1, 8), 128))}
+
+
+def alongside_expected(pr, o):
+    """kth_resume law for every survivor: seconds_k = seconds_0 + k * delta / tempo, beats_k = beats_0 + k * delta."""
+    F = Fraction
+    if 'fatal' in o:
+        return [('probe crashed', o['fatal'][-300:], '')]
+    if not o.get('completed'):
+        return None
+    bad = []
+    for spec, lst in zip(pr['survivors'], o['survivors']):
+        c = spec['clock']
+        tempo = F(1) if c in ('S', 'A') else F(pr['tempos'][c[1]])
+        d = F(spec['delta'])
+        s0, b0 = F(lst[0][0]), F(lst[0][1])
+        for k, (s, b) in enumerate(lst):
+            es, eb = s0 + k * d / tempo, b0 + k * d
+            if F(s) != es or F(b) != eb:
+                bad.append(('survivor on %s, resumption %d: logical seconds / beats' % (clock_name(c), k),
+                            '%s / %s (seconds off by %s)' % (s, b, F(s) - es), '%s / %s' % (es, eb)))
+                break
+    return bad
+
+
+# ------------------------------------------------------------------ strengthening 2 (C07): oversized bundles
+CLUMP_ROUTES = ['clumped', 'bundlenetaddr', 'bundlenetaddr_server', 'sync']
+CLUMP_LATS = [None, '-1/4', '0', '1/4', '-1', '1/8']
+
+
+def gen_clump(rng, k, rt=False):
+    route = CLUMP_ROUTES[k % 4]
+    lat = CLUMP_LATS[(k // 4) % len(CLUMP_LATS)]
+    inside = True if route == 'sync' else bool((k // 24) % 2 == 0 or rng.random() < 0.5)
+    if route == 'bundlenetaddr':
+        lat = None
+    small = (k % 11 == 10)                       # now and then a bundle that fits: one piece, the latency untouched
+    blob = rng.choice([3000, 4000, 5000])
+    return {'route': route, 'lat': lat, 'inside': inside, 'start': str(Fraction(rng.randint(1, 8), 128 if rt else 4)),
+            'nmsg': 3 if small else 70000 // blob + rng.randint(2, 8), 'blob': blob}
+
+
+def clump_expected(pr, o, mode):
+    """What the property allows.  Latency None / negative = "immediately": EVERY piece carries IMMEDIATELY (RT, timetag 1),
+    resp. is listed at exactly the send time (NRT).  A timed send: piece k carries latency + k * 1e-9 s (k from 1 for
+    send_clumped_bundles, from 0 for sync) -- the nanosecond spacing is sc3's documented way to keep the pieces ordered and is
+    accepted for the TIMED case only; a bundle that fits in one datagram carries the latency itself."""
+    F = Fraction
+    if 'fatal' in o:
+        return [('probe crashed', o['fatal'][-300:], '')]
+    if not o.get('done'):
+        return None
+    bad = []
+    if o.get('error'):
+        return [('the send raised', o['error'], 'no exception')]
+    pieces = o['pieces']
+    ids = [i for pc in pieces for i in pc['ids']]
+    if ids != list(range(pr['nmsg'])):
+        bad.append(('messages delivered over all pieces, in order', str(ids), str(list(range(pr['nmsg'])))))
+    lat = None if pr['lat'] is None else float(F(pr['lat']))
+    immediate = lat is None or lat < 0.0
+    first_k = 0 if pr['route'] == 'sync' else 1
+    if len(pieces) == 1:
+        first_k = 0
+    T = None if o.get('T') is None else float(F(o['T']))
+    for j, pc in enumerate(pieces):
+        if immediate:
+            if mode == 'rt':
+                if int(pc['tag']) != 1:
+                    bad.append(('piece %d of %d of a send with latency %s: timetag' % (j, len(pieces), pr['lat']), pc['tag'], '1 (immediately)'))
+                    break
+            else:
+                exp = F(T) if pr['inside'] else F(0)
+                if F(pc['time']) != exp or int(pc['tag']) != int(float(exp) * 4294967296.0):
+                    bad.append(('piece %d of %d of a send with latency %s: score time / timetag' % (j, len(pieces), pr['lat']),
+                                '%s / %s' % (pc['time'], pc['tag']), '%s / %s (exactly the send time)' % (exp, int(float(exp) * 4294967296.0))))
+                    break
+        else:
+            lk = lat
+            for _ in range(first_k + j if len(pieces) > 1 else 0):
+                lk += 1e-9
+            if mode == 'rt':
+                if T is None:
+                    continue                                   # outside routines each piece reads the physical clock: only order is checked
+                exp = int((lk + T) * 4294967296.0) + int(o['osc_offset'])
+                if int(pc['tag']) != exp:
+                    bad.append(('piece %d of %d of a send with latency %s at logical time %s: timetag' % (j, len(pieces), pr['lat'], o['T']), pc['tag'], str(exp)))
+                    break
+            else:
+                t = lk + T if pr['inside'] else lk
+                if F(pc['time']) != F(t) or int(pc['tag']) != int(t * 4294967296.0):
+                    bad.append(('piece %d of %d of a send with latency %s: score time / timetag' % (j, len(pieces), pr['lat']),
+                                '%s / %s' % (pc['time'], pc['tag']), '%s / %s (send time + latency + k ns)' % (F(t), int(t * 4294967296.0))))
+                    break
+    if not immediate:
+        tags = [int(pc['tag']) for pc in pieces]
+        if any(b < a for a, b in zip(tags, tags[1:])):
+            bad.append(('timetags of successive pieces', str(tags), 'non-decreasing'))
+    return bad
